@@ -3,7 +3,7 @@
    Every theorem holds for EVERY scalar carrier A whose missing value is recognisable
    (miss_law), for every series, period, and history of operations. *)
 From Coq Require Import ZArith List Bool.
-From Verif Require Import lib.Arith lib.ArithOptZ model.Series model.SeriesOps proofs.SeriesProofs proofs.SeriesOpsProofs.
+From Verif Require Import lib.Arith lib.ArithOptZ model.Series model.SeriesOps proofs.SeriesProofs proofs.SeriesOpsProofs proofs.SeriesWinProofs.
 Import ListNotations.
 Open Scope Z_scope.
 
@@ -104,4 +104,59 @@ Example C10_lawful_carrier_exists :
 Proof.
   split; [exact OZ_miss_law|]. split; [reflexivity|].
   repeat constructor; simpl; discriminate.
+Qed.
+
+(* ------------------------------------------------------------------------------------------------
+   values of the statistics across variants and of the moving-window functions (proofs/SeriesWinProofs.v) *)
+
+(* a lawful carrier with the extra operations, for the non-vacuity examples *)
+Definition OZX : ArithExt OZArith :=
+  mkExt OZArith (option_map Z.abs) (fun x => x)
+    (fun a b => match a, b with Some x, Some y => x <? y | _, _ => false end)
+    (fun a b => match a, b with Some x, Some y => x =? y | _, _ => false end).
+Definition oz_demo : series OZArith :=
+  mkSeries (A:=OZArith) 4 (Some 8000) 2 [[Some 1; Some 5]; [Some 2; None]; [None; None]; [Some 4; Some 7]].
+
+(* sum/mean/prod/max/min and their nan-variants: inside the span the statistic of the period's row, a
+   missing value outside *)
+Theorem C10_statistic_spec : forall A, lawful A -> forall (X : ArithExt A) k (s : series A) t, WF A s ->
+  row_at A (statistic A X k s) t
+  = if in_span A s t then [stat_value A X k (row_at A s t)] else missrow A 1.
+Proof. exact statistic_spec. Qed.
+Print Assumptions C10_statistic_spec.
+Example C10_statistic_nonvacuous :
+  WF OZArith oz_demo /\ row_at OZArith (statistic OZArith OZX StNanSum oz_demo) 8001 = [Some 2]
+  /\ row_at OZArith (statistic OZArith OZX StSum oz_demo) 8003 = [Some 11]
+  /\ row_at OZArith (statistic OZArith OZX StNanSum oz_demo) 8004 = [None].
+Proof. split; [repeat constructor; simpl; discriminate|]. repeat split; reflexivity. Qed.
+
+(* mov_sum / mov_avg / mov_prod with a window of k periods: at every period t of the span, variant c holds
+   the left-to-right sum (mean, product) of x(t-k+1), ..., x(t) (periods before the start count as missing);
+   outside the span the result is missing *)
+Theorem C10_moving_spec : forall A, lawful A -> forall m k (s r : series A) t, WF A s -> moving A m k s = Ok r ->
+  row_at A r t
+  = if in_span A s t then map (fun c => mov_value A m k (window_at A s t k c)) (seq 0 (s_nv s))
+    else missrow A (s_nv s).
+Proof. exact moving_spec. Qed.
+Print Assumptions C10_moving_spec.
+Example C10_moving_nonvacuous :
+  moving OZArith MovSum 2 oz_demo
+    = Ok (mkSeries (A:=OZArith) 4 (Some 8001) 2 [[Some 3; None]])
+  /\ window_at OZArith oz_demo 8001 2 0 = [Some 1; Some 2]
+  /\ mov_value OZArith MovSum 2 [Some 1; Some 2] = Some 3.
+Proof. repeat split; reflexivity. Qed.
+
+(* the window value is missing as soon as one member of the window is missing, for every carrier whose
+   +, * and / propagate the missing value (IEEE NaN does; so does option Z) *)
+Theorem C10_moving_missing_member : forall A m k (w : list (car A)) x,
+  propagates A (add A) -> propagates A (mul A) ->
+  (forall a b, is_miss A a = true -> is_miss A (div A a b) = true) ->
+  In x w -> is_miss A x = true -> is_miss A (mov_value A m k w) = true.
+Proof. exact mov_value_missing. Qed.
+Print Assumptions C10_moving_missing_member.
+Example C10_moving_missing_nonvacuous :
+  propagates OZArith (add OZArith) /\ propagates OZArith (mul OZArith) /\
+  (forall a b, is_miss OZArith a = true -> is_miss OZArith (div OZArith a b) = true).
+Proof.
+  repeat split; intros [x|] [y|]; simpl; intros H; try reflexivity; discriminate.
 Qed.
